@@ -70,6 +70,57 @@ def mc_mem(run, thorough_too=True):
             run.model_check("Mem_" + c, "MC_Mem.tla", "MC_Mem_%s.cfg" % c)
 
 
+def check_C05(run):
+    mc_factor(run, ["q", "c"], ["p"])
+    g = Gen(run.seed * 1000 + 5)
+    types = {"d": 1.0, "z": 0.8, "s": 0.3, "c": 0.3} if run.tier == "quick" else FULL_TYPES
+    run.conform("gssvx", F.fam_gssvx(g, "C05", sizes(run, 700, 5000), types), ["C05."])
+    return run.finish(rule="generated systems through ?gssvx: every Trans x Equil x storage x IterRefine, power-of-two row/column scalings forcing equed N/R/C/B, complex data with nonzero imaginary parts")
+
+
+def tlc_histories(run):
+    objs, st, out = vlib.tlc_generate(run.prop + "_hist", "SluHist.tla", "SluHist.cfg")
+    run.mc.append({"name": "SluHist", "module": "SluHist.tla", "cfg": "SluHist.cfg", "states": st["generated"], "distinct": st["distinct"], "depth": st["depth"], "wall_s": 0, "ok": True, "coverage": {}})
+    return [o["hist"] for o in objs]
+
+
+def check_C06(run):
+    hists = tlc_histories(run)
+    g = Gen(run.seed * 1000 + 6)
+    g.r.shuffle(hists)
+    scen = {}
+    if run.tier == "quick":
+        plan = {"d": 260, "z": 90, "s": 40, "c": 30}
+    else:
+        plan = {"d": len(hists), "z": len(hists), "s": len(hists) // 2, "c": len(hists) // 2}
+    for ty, k in plan.items():
+        scen[ty] = [F.history_scenario(g, "C06-hist-%05d-%s" % (i, ty), ty, hists[i % len(hists)]) for i in range(k)]
+    run.conform("hist", scen, ["C06.", "C05.", "C02.", "C03.", "C04."])
+    return run.finish(rule="TLC enumerates every call history of length <= 4 over Fact modes x value changes that respects the documented preconditions (SluHist); each is executed on a generated pattern and every call is validated as a fresh factorization of that call's matrix",
+                      exhaustive=(run.tier != "quick"))
+
+
+def check_C18(run):
+    objs, st, out = vlib.tlc_generate("C18_screen", "SluScreen.tla", "SluScreen.cfg")
+    if "No error has been found" not in out:
+        raise vlib.Broken("SluScreen tables inconsistent:\n" + out[-2000:])
+    run.mc.append({"name": "SluScreen", "module": "SluScreen.tla", "cfg": "SluScreen.cfg", "states": st["generated"], "distinct": st["distinct"], "depth": st["depth"], "wall_s": 0, "ok": True, "coverage": {}})
+    g = Gen(run.seed * 1000 + 18)
+    scen = {}
+    tys = ["d", "z", "s", "c"]
+    reps = 1 if run.tier == "quick" else 6
+    for ty in tys:
+        lst = []
+        for rep in range(reps):
+            for k, o in enumerate(objs):
+                fam = "screen" + o["routine"]
+                lst.append(F.screen_scenario(g, "C18-%s-%03d%02d-%s" % (fam, k, rep, ty), ty, o["routine"], [o["corrupt"]], o["factored"]))
+            # the valid base calls themselves (accepted: nothing is demanded of them here)
+        scen[ty] = lst
+    run.conform("screen", scen, ["C18."])
+    return run.finish(rule="TLC enumerates every single-argument corruption of every routine's decision table (SluScreen); each is applied to an otherwise valid call in all four types", exhaustive=True)
+
+
 def check_C07(run):
     mc_mem(run, thorough_too=False)
     g = Gen(run.seed * 1000 + 7)
